@@ -12,6 +12,7 @@
 #include <unistd.h>
 int gh_lock_depth;      /* current depth */
 int gh_lock_acquired;   /* number of successful trylocks */
+int gh_lock_outer;      /* number of critical sections opened (depth 0 -> 1 transitions) */
 #ifndef QV_NATIVE
 void qv_on_acquire(void);
 void qv_on_release(void);
@@ -19,6 +20,7 @@ int pthread_mutex_trylock(pthread_mutex_t *m) {
     __CPROVER_assert(__CPROVER_w_ok(m, sizeof(*m)), "C11: trylock on a live mutex object");
     gh_lock_depth++;
     gh_lock_acquired++;
+    if (gh_lock_depth == 1) gh_lock_outer++;
 #ifdef QV_LOCK_HOOKS
     if (gh_lock_depth == 1) qv_on_acquire();
 #endif
